@@ -80,8 +80,9 @@ Proof.
     destruct (ac_peer ac) as [q0|] eqn:Ap.
     + unfold set_peer in Es. rewrite Gci, Epe in Es. inversion Es. reflexivity.
     + destruct (cls =? 0); [reflexivity|]. specialize (Hno eq_refl).
-      replace (ac_allow ac && negb (ac_allow ac && ep_allowed_peer c q (ac_ep ac))) with false; [reflexivity|].
-      destruct (ac_allow ac); [|reflexivity]. destruct Hno as [X|X]; [discriminate | rewrite X; reflexivity].
+      replace (ac_allow ac && negb (ac_allow ac && ep_allowed_peer c q (ac_ep ac))) with false.
+      2:{ destruct (ac_allow ac); [|reflexivity]. destruct Hno as [X|X]; [discriminate | rewrite X; reflexivity]. }
+      destruct (conn_par_nonempty st a i ac (conj Lc Ls) Ga Ap) as (x0 & l0 & Ex). rewrite Ex. reflexivity.
   - destruct Wf as ((s & Gs) & _). destruct (Ls j s Gs) as (si & h & Gsi & _ & _ & Epr & _).
     destruct (set_proto c st j p) as [st' cls] eqn:Es. apply len1_hd. cbn [astep]. rewrite Gs.
     destruct (as_proto s) as [p0|] eqn:Ap.
